@@ -115,6 +115,9 @@ type world struct {
 	newCpcs      []common.Address         // ERC-20 precompiles deployed by message during the history
 	pendingFresh *common.Address          // deployed in the previous block: the next block begins with calls to it
 	home         string                   // root of the replicas' node home directories (app.toml, snapshots)
+	seen         []*seenTx                // Ethereum transactions replicas 1.. met outside block execution (variants_test.go)
+	seenGhost    []*seenTx                // ... and never included as they are (ghosts)
+	nextVictim   int
 	processWide  string                   // what this process enabled process-wide (telemetry, geth metrics)
 }
 
@@ -290,6 +293,7 @@ func (w *world) setupReplica(c *Chain) {
 	placeContract(c, w.store, rtStore)
 	placeContract(c, w.clock, BuildClock())
 	w.setupCpcDeployers(c)
+	w.setupGhosts(c)
 	// an application module account that holds nothing (touching it makes the commit loop try to delete it)
 	c.App.AccountKeeper.SetAccount(ctx, c.App.AccountKeeper.NewAccount(ctx, authtypes.NewEmptyModuleAccount("verif-empty-module")))
 	c.RunBlockVoted(nil)
@@ -394,7 +398,7 @@ func init() { devNull, _ = os.OpenFile(os.DevNull, os.O_WRONLY, 0) }
 
 // runOn executes the block under the replica's node-local conditions, its own request traffic included.
 // A Go panic or an error of FinalizeBlock / Commit (the node halts) is returned as an error.
-func (r *replica) runOn(w *world, raws [][]byte, tr *Rng) (res *abci.ResponseFinalizeBlock, err error) {
+func (r *replica) runOn(w *world, raws [][]byte, gossip []*seenTx, tr *Rng) (res *abci.ResponseFinalizeBlock, err error) {
 	defer func() {
 		if p := recover(); p != nil {
 			res, err = nil, fmt.Errorf("panic: %v", p)
@@ -416,6 +420,9 @@ func (r *replica) runOn(w *world, raws [][]byte, tr *Rng) (res *abci.ResponseFin
 		// not yet part of any committed version: readers on a state OLDER than the one the block will run on
 		w.historicTraffic(r, tr)
 	}
+	// (its own stream: the traffic below draws what it drew before)
+	tg := tr.Fork(31337)
+	gossipLater := w.gossipBefore(r, gossip, raws, tg)
 	if r.cfg.CheckTx {
 		for i := range raws {
 			bz := raws[i]
@@ -457,6 +464,7 @@ func (r *replica) runOn(w *world, raws [][]byte, tr *Rng) (res *abci.ResponseFin
 			w.side.Count("traffic:recheck_tx")
 		}
 	}
+	w.gossipAfter(r, gossipLater, tg)
 	if tc.Historic {
 		w.historicTraffic(r, tr)
 	}
